@@ -37,6 +37,11 @@ func bigIndexHistory(g *Gen, n int) []J {
 		}
 		lines = append(lines, opLine("insert", J{"coll": hx("big"), "docs": docs}))
 	}
+	// the whole collection copied by a query without criteria or window (a natural place for a record-level fast path), read back in full
+	lines = append(lines, opLine("createCollectionByQuery", J{"coll": hx("copy"), "q": J{"coll": hx("big")}}),
+		opLine("count", J{"q": J{"coll": hx("copy")}}),
+		opLine("findAll", J{"q": J{"coll": hx("copy"), "crit": J{"cmp": []interface{}{"lt", hx("xy"), J{"lit": encValue(int64(7))}}}}}), J{"k": "dump"},
+		opLine("dropCollection", J{"coll": hx("copy")}))
 	lines = append(lines, J{"k": "dump"}, opLine("dropIndex", J{"coll": hx("big"), "field": hx("x")}), J{"k": "dump"},
 		opLine("findAll", J{"q": J{"coll": hx("big"), "crit": J{"cmp": []interface{}{"lt", hx("xy"), J{"lit": encValue(int64(5))}}}}}),
 		opLine("createIndex", J{"coll": hx("big"), "field": hx("x")}), J{"k": "dump"},
@@ -117,6 +122,86 @@ func nestedIndexHistory(h *HistGen) []J {
 		probe()
 	}
 	lines = append(lines, J{"k": "dump"})
+	return lines
+}
+
+// separatorHistory: collections "u" and "u<sep>m" (optionally "u<sep>m<sep>a") holding documents with the SAME ids, with
+// indexes on the complementary fields "m<sep>a" and "a": any key, cache key or catalog entry built by joining a collection
+// name and a field name with <sep> collides for the two.  Queries through each index, then index and collection drops on
+// one side with the other side probed after each step.
+var separators = []string{":", "/", "-", "_", "|", ",", " ", "::", ".", "#", "\x00", "=", "@"}
+
+func separatorHistory(h *HistGen, sep string) []J {
+	g := h.G
+	c1, c2, c3 := "u", "u"+sep+"m", "u"+sep+"m"+sep+"a"
+	f1, f2 := "m"+sep+"a", "a"
+	if sep == "." {
+		f1 = "m:a" // a dot in a field name is a path separator: keep the fields flat
+	}
+	colls := []string{c1, c2, c3}
+	fields := map[string][]string{c1: {f1, "m"}, c2: {f2, f1}, c3: {f2}}
+	lines := []J{}
+	for _, c := range colls {
+		lines = append(lines, opLine("createCollection", J{"coll": hx(c)}))
+	}
+	ids := []string{}
+	for j := 0; j < 5; j++ {
+		ids = append(ids, h.newId())
+	}
+	insert := func(c string, k int) {
+		docs := []interface{}{}
+		for j, id := range ids {
+			docs = append(docs, encDoc(map[string]interface{}{"_id": id, f1: int64(10*k + j), f2: int64(100*k + (4 - j)), "m": int64(j % 2)}))
+		}
+		lines = append(lines, opLine("insert", J{"coll": hx(c), "docs": docs}))
+	}
+	index := func(c string) {
+		for _, f := range fields[c] {
+			lines = append(lines, opLine("createIndex", J{"coll": hx(c), "field": hx(f)}))
+		}
+	}
+	probe := func() {
+		for _, c := range colls {
+			lines = append(lines, opLine("listIndexes", J{"coll": hx(c)}))
+			for _, f := range []string{f1, f2} {
+				lines = append(lines, opLine("hasIndex", J{"coll": hx(c), "field": hx(f)}),
+					opLine("findAll", J{"q": J{"coll": hx(c), "sort": []interface{}{[]interface{}{hx(f), 1 - 2*g.pick(2)}}}}),
+					opLine("count", J{"q": J{"coll": hx(c), "crit": J{"cmp": []interface{}{"ge", hx(f), J{"lit": encValue(int64(0))}}}}}))
+			}
+		}
+		lines = append(lines, opLine("listCollections", J{}), J{"k": "dump"})
+	}
+	if g.pick(2) == 0 {
+		for k, c := range colls {
+			index(c)
+			insert(c, k+1)
+		}
+	} else {
+		for k, c := range colls {
+			insert(c, k+1)
+		}
+		for _, c := range colls {
+			index(c)
+		}
+	}
+	probe()
+	for step := 0; step < 4; step++ {
+		c := colls[g.pick(3)]
+		switch g.pick(5) {
+		case 0:
+			lines = append(lines, opLine("dropIndex", J{"coll": hx(c), "field": hx(fields[c][g.pick(len(fields[c]))])}))
+		case 1:
+			lines = append(lines, opLine("dropCollection", J{"coll": hx(c)}))
+		case 2:
+			lines = append(lines, opLine("update", J{"q": J{"coll": hx(c), "crit": J{"cmp": []interface{}{"ge", hx("m"), J{"lit": encValue(int64(g.pick(2)))}}}},
+				"upd": J{"setAll": []interface{}{[]interface{}{hx(f1), encValue(int64(g.pick(50)))}, []interface{}{hx(f2), encValue(int64(g.pick(50)))}}}, "viaUpdate": 1}))
+		case 3:
+			lines = append(lines, opLine("deleteById", J{"coll": hx(c), "id": hx(ids[g.pick(len(ids))])}))
+		default:
+			lines = append(lines, opLine("createCollection", J{"coll": hx(c)}), opLine("createIndex", J{"coll": hx(c), "field": hx(fields[c][0])}))
+		}
+		probe()
+	}
 	return lines
 }
 
@@ -205,6 +290,20 @@ func streamHistories(c *Ctx, cfg HistCfg, what string) {
 				}
 			}
 		}
+		if cfg.Indexes {
+			for _, sep := range separators {
+				lines := separatorHistory(NewHistGen(NewGen(c.Rng, dm), 1, 1), sep)
+				o := runHistory(dr, im, lines, HistOpts{})
+				recordHistory(c, lines, &o, be)
+				c.Count("separator-history")
+				if o.Index >= 0 {
+					if reportHistoryProblem(c, dr, im, lines, &o, be, HistOpts{}, what) {
+						im.Destroy()
+						return
+					}
+				}
+			}
+		}
 		for hN := 0; hN < nHist; hN++ {
 			g := NewGen(c.Rng, dm)
 			if !cfg.Indexes && hN%4 == 3 {
@@ -216,6 +315,11 @@ func streamHistories(c *Ctx, cfg HistCfg, what string) {
 				h.Focus = []string{indexable[g.pick(len(indexable))], indexable[g.pick(len(indexable))]}
 			}
 			lines := h.History(cfg)
+			if hN%3 == 2 {
+				var lab string
+				lines, lab = varyNames(g, lines, h.Colls)
+				c.Count(lab)
+			}
 			hopts := HistOpts{Traces: cfg.Dumps, MaskItems: true} // with dumps also the store-call trace of every operation is compared with the model's
 			o := runHistory(dr, im, lines, hopts)
 			recordHistory(c, lines, &o, be)
